@@ -112,11 +112,32 @@ def DataAbs.holds : DataAbs → List Char → Prop
   | .opnd k, d => k.lang d
   | .any, _ => True
 
+/-- what is known of the six `point_has_*` / `point_con_*` flags (`none`: nothing) -/
+structure FlagsAbs where
+  hasX : Option Bool
+  hasY : Option Bool
+  hasZ : Option Bool
+  conX : Option Bool
+  conY : Option Bool
+  conZ : Option Bool
+  deriving DecidableEq, Repr
+
+def FlagsAbs.get (F : FlagsAbs) : Flag → Option Bool
+  | .hasX => F.hasX | .hasY => F.hasY | .hasZ => F.hasZ | .conX => F.conX | .conY => F.conY | .conZ => F.conZ
+
+def FlagsAbs.set (F : FlagsAbs) (f : Flag) (v : Option Bool) : FlagsAbs :=
+  match f with
+  | .hasX => { F with hasX := v } | .hasY => { F with hasY := v } | .hasZ => { F with hasZ := v }
+  | .conX => { F with conX := v } | .conY => { F with conY := v } | .conZ => { F with conZ := v }
+
+def FlagsAbs.unknown : FlagsAbs := ⟨none, none, none, none, none, none⟩
+def FlagsAbs.allFalse : FlagsAbs := ⟨some false, some false, some false, some false, some false, some false⟩
+
 structure Ctl where
   state : State
   stack : List Handler
   stage : Nat
-  flags : List Flag
+  flags : FlagsAbs
   data : DataAbs
   /-- the local `s` of `used(false)` is one of these words -/
   str : Option (List String)
@@ -125,11 +146,11 @@ structure Ctl where
   itE : Bool
   deriving DecidableEq, Repr
 
-def Ctl.init : Ctl := { state := .start_, stack := [], stage := 0, flags := [], data := .empty, str := none, itI := false, itE := false }
+def Ctl.init : Ctl := { state := .start_, stack := [], stage := 0, flags := .allFalse, data := .empty, str := none, itI := false, itE := false }
 
 /-- the reader states a control stands for: no error recorded so far, and the fields agree -/
 def Ctl.holds (c : Ctl) (st : St) : Prop :=
-  st.err = none ∧ st.state = c.state ∧ st.stack = c.stack ∧ st.stage = c.stage ∧ st.flags = c.flags ∧
+  st.err = none ∧ st.state = c.state ∧ st.stack = c.stack ∧ st.stage = c.stage ∧ (∀ f b, c.flags.get f = some b → st.flag f = b) ∧
   c.data.holds st.data ∧ (∀ al, c.str = some al → al.contains (String.ofList st.str) = true) ∧
   (c.itI = true → st.iterI.isSome = true) ∧ (c.itE = true → st.iterE.isSome = true)
 
@@ -167,8 +188,11 @@ def absOp (op : Op) (as : List (String × Option String)) (c : Ctl) : Option Ctl
   | .stageSet k => some { c with stage := k }
   | .stageSwitch cases _ => if cases.contains c.stage = true ∧ c.data = .opnd .int then some c else none
   | .requireState ss _ => if ss.all (fun s => c.state != s) then none else some c
-  | .requireFlagEq a b _ => if c.flags.contains a != c.flags.contains b then none else some c
-  | .setFlag f v => some { c with flags := if v then f :: c.flags.filter (· != f) else c.flags.filter (· != f) }
+  | .requireFlagEq a b _ =>
+    (match c.flags.get a, c.flags.get b with
+     | some x, some y => if x = y then some c else none
+     | _, _ => none)
+  | .setFlag f v => some { c with flags := c.flags.set f (some v) }
   | .covGuard _ => some c
   | .covReset => some { c with itI := false, itE := false }
   | .iterBegin => some { c with itI := true }
@@ -186,14 +210,14 @@ def absOp (op : Op) (as : List (String × Option String)) (c : Ctl) : Option Ctl
   | .data => some c
   | .book _ => some c
 
-/-- the statements whose outcome depends on numbers the control does not carry -/
-def opDemand (op : Op) (st : St) : Prop :=
+/-- the statements whose outcome depends on numbers the control does not carry: `true` iff the test passes -/
+def opDemand (op : Op) (st : St) : Bool :=
   match op with
   | .covGuard _ =>
-    (st.dim < 0 || st.band < 0 || st.band > max (st.dim - 1) 0 || (st.band + 1) * st.dim > intMax ||
-      (covGuardUnknowns && st.dim > st.unknowns)) = false
-  | .iterErr _ w _ => st.iterCmp = some (!w)
-  | _ => True
+    !(st.dim < 0 || st.band < 0 || st.band > max (st.dim - 1) 0 || (st.band + 1) * st.dim > intMax ||
+      (covGuardUnknowns && st.dim > st.unknowns))
+  | .iterErr _ w _ => st.iterCmp == some (!w)
+  | _ => true
 
 def absOps : List Op → List (String × Option String) → Ctl → Option Ctl
   | [], _, c => some c
@@ -202,9 +226,9 @@ def absOps : List Op → List (String × Option String) → Ctl → Option Ctl
     | some c' => absOps r as c'
     | none => none
 
-def opsDemand : List Op → List (String × String) → St → Prop
-  | [], _, _ => True
-  | op :: r, as, st => opDemand op st ∧ opsDemand r as (execOp op as st).1
+def opsDemand : List Op → List (String × String) → St → Bool
+  | [], _, _ => true
+  | op :: r, as, st => opDemand op st && opsDemand r as (execOp op as st).1
 
 /-- statements decided by the control alone (the only ones a start handler may contain) -/
 def noDemand : Op → Bool
@@ -219,7 +243,7 @@ def absStart (r : Option (Tag × Option Flag)) (ka : List (String × Option Stri
     match r with
     | some (t, fo) =>
       let fl := match fo with
-        | some f => f :: c.flags.filter (· != f)
+        | some f => c.flags.set f (some true)
         | none => c.flags
       if (startOps (tagfun c.state t)).all noDemand then
         absOps (startOps (tagfun c.state t)) ka { c with data := .empty, flags := fl }
@@ -227,12 +251,19 @@ def absStart (r : Option (Tag × Option Flag)) (ka : List (String × Option Stri
     | none => none
   else none
 
+def usesFlags : Op → Bool
+  | .requireFlagEq _ _ _ => true
+  | _ => false
+
 def absStop (c : Ctl) : Option Ctl :=
   match c.stack with
   | [] => none
   | h :: rest =>
     match absOps (endOps h) [] { c with stack := rest } with
-    | some c' => some { c' with data := .empty, str := none }
+    | some c' =>
+      -- the flags are forgotten once the handler that tests them has run (keeps the sets of controls small)
+      some { c' with data := .empty, str := none,
+                     flags := if (endOps h).any usesFlags then .unknown else c'.flags }
     | none => none
 
 def absText (k : Option LeafKind) (c : Ctl) : Ctl :=
@@ -329,15 +360,82 @@ def Ctl.final (c : Ctl) : Bool := c.state == .stop_ && c.stack.isEmpty
 
 /-! ### the numeric side conditions along a run -/
 
-def evDemand (st : St) : Event → Prop
+def evDemand (st : St) : Event → Bool
   | .stop =>
     (match st.stack with
      | h :: rest => opsDemand (endOps h) [] { st with stack := rest }
-     | [] => True)
-  | _ => True
+     | [] => true)
+  | _ => true
 
-def RunDemand : St → List Event → Prop
-  | _, [] => True
-  | st, e :: r => evDemand st e ∧ RunDemand (step st e) r
+def RunDemand : St → List Event → Bool
+  | _, [] => true
+  | st, e :: r => evDemand st e && RunDemand (step st e) r
+
+end Gama.AdjRes
+
+/-! ### a canonical document of a skeleton (for examples): first branch of every conditional, one iteration of every loop -/
+
+namespace Gama.AdjRes
+
+def LeafKind.langB : LeafKind → List Char → Bool
+  | .any, _ => true
+  | .int, d => Lit.isInteger d
+  | .float, d => Lit.isFloat d
+  | .str al, d => al.contains (String.ofList (getString d))
+
+def canonOperand (tag : String) : XmlEsc.Bytes :=
+  if tag == "used" then XmlDoc.bytesOf "apriori" else if tag == "dim" then [49] else [48]
+
+def canonAttr (el : String) (a : XmlDoc.AttrSk) : String × XmlEsc.Bytes :=
+  (a.name, match a.val with
+    | .lit s => XmlDoc.bytesOf s
+    | .op _ _ => match attrReq el a.name with
+      | some v => XmlDoc.bytesOf v
+      | none => [])
+
+def canonTok : XmlDoc.TokSk → XmlDoc.Tok
+  | .decl => .decl
+  | .stag n as e => .stag n (as.map (canonAttr n)) e
+  | .etag n => .etag n
+  | .comment s => .comment s
+  | .chars s => .chars (XmlDoc.bytesOf s)
+  | .text tag _ _ => .chars (canonOperand tag)
+
+def operandGood (k : Gen.XmlSites.Kind) (b : XmlEsc.Bytes) : Bool :=
+  match k with
+  | .text => XmlEsc.str2xml b == b
+  | .numeric => b.all XmlDoc.numChar
+  | .const => b.all XmlDoc.constChar
+
+def attrGood (el : String) (a : XmlDoc.AttrSk) : Bool :=
+  match a.val with
+  | .lit s =>
+    (match attrReq el a.name with
+     | some v => String.ofList (expatText (XmlDoc.bytesOf s)) == v
+     | none => true)
+  | .op k _ =>
+    (match attrReq el a.name with
+     | some v => k == .const && (XmlDoc.bytesOf v).all XmlDoc.constChar && String.ofList (expatText (XmlDoc.bytesOf v)) == v
+     | none => true)
+
+/-- the canonical token is one the skeleton token produces, with its operand in the language of the element -/
+def tokGood : XmlDoc.TokSk → Bool
+  | .stag n as _ => as.all (attrGood n)
+  | .text tag k _ => operandGood k (canonOperand tag) && (leafKind tag).langB (expatText (canonOperand tag))
+  | _ => true
+
+def skGood : XmlDoc.Sk → Bool
+  | .eps => true
+  | .tok t => tokGood t
+  | .seq a b => skGood a && skGood b
+  | .alt a _ => skGood a
+  | .star a => skGood a
+
+def canonDoc : XmlDoc.Sk → List XmlDoc.Tok
+  | .eps => []
+  | .tok t => [canonTok t]
+  | .seq a b => canonDoc a ++ canonDoc b
+  | .alt a _ => canonDoc a
+  | .star a => canonDoc a
 
 end Gama.AdjRes
